@@ -216,8 +216,6 @@ def _unroll_table_loops(tree):
                     and all(isinstance(e, ast.Tuple) for e in st.value.elts):
                 tables[nm] = st.value.elts
     tables = {k: v for k, v in tables.items() if counts.get(k) == 1}
-    if not tables:
-        return
     for node in list(ast.walk(tree)):
         for fld in ('body', 'orelse', 'finalbody'):
             blk = getattr(node, fld, None)
@@ -229,6 +227,8 @@ def _unroll_table_loops(tree):
                 st = blk[i]
                 rep = _unrolled(st, tables) if isinstance(st, ast.For) \
                     else None
+                if rep is None and isinstance(st, ast.For):
+                    rep = _unrolled_plain(st)
                 if rep is not None:
                     blk[i:i + 1] = rep
                     i += len(rep)
@@ -237,9 +237,23 @@ def _unroll_table_loops(tree):
 
 
 def _unrolled(lp, tables):
-    if not (isinstance(lp.iter, ast.Name) and lp.iter.id in tables):
+    if isinstance(lp.iter, ast.Name) and lp.iter.id in tables:
+        elts = tables[lp.iter.id]
+    elif isinstance(lp.iter, (ast.Tuple, ast.List)) and lp.iter.elts and \
+            len(lp.iter.elts) <= 8 and all(
+                isinstance(e, ast.Tuple) and _pure(e)
+                for e in lp.iter.elts):
+        # a literal table written in place, of names / attributes /
+        # constants none of which the body rebinds
+        elts = lp.iter.elts
+        used = {n.id for e in elts for n in ast.walk(e)
+                if isinstance(n, ast.Name)}
+        for n in ast.walk(ast.Module(body=lp.body, type_ignores=[])):
+            if isinstance(n, ast.Name) and isinstance(
+                    n.ctx, ast.Store) and n.id in used:
+                return None
+    else:
         return None
-    elts = tables[lp.iter.id]
     if isinstance(lp.target, ast.Tuple):
         tnames = [t.id if isinstance(t, ast.Name) else None
                   for t in lp.target.elts]
@@ -279,6 +293,45 @@ def _unrolled(lp, tables):
         arm.orelse = tail
         tail = [arm]
     return tail
+
+
+def _unrolled_plain(lp):
+    """``for x in (a, b): body`` over a short display of names / attributes
+    / constants that the body does not rebind is body[x:=a]; body[x:=b]."""
+    if not (isinstance(lp.iter, (ast.Tuple, ast.List)) and lp.iter.elts and
+            len(lp.iter.elts) <= 6 and not lp.orelse and len(lp.body) <= 6):
+        return None
+    elts = lp.iter.elts
+    if isinstance(lp.target, ast.Name):
+        tnames = [lp.target.id]
+        rows = [[e] for e in elts]
+    elif isinstance(lp.target, ast.Tuple) and all(
+            isinstance(t, ast.Name) for t in lp.target.elts):
+        tnames = [t.id for t in lp.target.elts]
+        if not all(isinstance(e, ast.Tuple) and len(e.elts) == len(tnames)
+                   for e in elts):
+            return None
+        rows = [list(e.elts) for e in elts]
+    else:
+        return None
+    if not all(_pure(x) for r in rows for x in r):
+        return None
+    used = {n.id for r in rows for x in r for n in ast.walk(x)
+            if isinstance(n, ast.Name)}
+    for n in ast.walk(ast.Module(body=lp.body, type_ignores=[])):
+        if isinstance(n, (ast.Break, ast.Continue, ast.Return, ast.Yield,
+                          ast.YieldFrom, ast.FunctionDef, ast.Lambda,
+                          ast.ClassDef)):
+            return None
+        if isinstance(n, ast.Name) and isinstance(
+                n.ctx, (ast.Store, ast.Del)) and (
+                    n.id in used or n.id in tnames):
+            return None
+    out = []
+    for r in rows:
+        sub = _SubstNames(dict(zip(tnames, r)))
+        out.extend(sub.visit(_plain_copy(x)) for x in lp.body)
+    return out
 
 
 def _pure(e):
@@ -495,6 +548,162 @@ def _negate(t):
     return ast.copy_location(ast.UnaryOp(op=ast.Not(), operand=t), t)
 
 
+def _tuple_assigns(tree):
+    """``a, b = x, y`` with plain names on the left, none of them read on
+    the right, is ``a = x`` then ``b = y``."""
+    for node in ast.walk(tree):
+        for fld in ('body', 'orelse', 'finalbody'):
+            blk = getattr(node, fld, None)
+            if not (isinstance(blk, list) and blk and isinstance(
+                    blk[0], ast.stmt)):
+                continue
+            i = 0
+            while i < len(blk):
+                st = blk[i]
+                if isinstance(st, ast.Assign) and len(st.targets) == 1 and \
+                        isinstance(st.targets[0], ast.Tuple) and isinstance(
+                            st.value, ast.Tuple) and len(
+                                st.targets[0].elts) == len(st.value.elts) \
+                        and all(isinstance(t, ast.Name)
+                                for t in st.targets[0].elts) and not any(
+                            isinstance(v, ast.Starred)
+                            for v in st.value.elts):
+                    names = {t.id for t in st.targets[0].elts}
+                    reads = {n.id for n in ast.walk(st.value)
+                             if isinstance(n, ast.Name)}
+                    if not (names & reads) and len(names) == len(
+                            st.targets[0].elts):
+                        new = []
+                        for t, v in zip(st.targets[0].elts, st.value.elts):
+                            a = ast.Assign(targets=[t], value=v)
+                            ast.copy_location(a, st)
+                            new.append(a)
+                        blk[i:i + 1] = new
+                        i += len(new)
+                        continue
+                i += 1
+
+
+def _single_aliases(tree):
+    """Inside a function, ``b = a`` between two locals that are each bound
+    exactly once (a may be a parameter) makes b another name for a: reads
+    of b are reads of a."""
+    for fn in ast.walk(tree):
+        if not isinstance(fn, (ast.FunctionDef, ast.AsyncFunctionDef)):
+            continue
+        stores = {}
+        special = set()
+        a = fn.args
+        for x in a.posonlyargs + a.args + a.kwonlyargs + [
+                y for y in (a.vararg, a.kwarg) if y is not None]:
+            stores[x.arg] = stores.get(x.arg, 0) + 1
+        for n in ast.walk(fn):
+            if n is fn:
+                continue
+            if isinstance(n, ast.Name) and isinstance(
+                    n.ctx, (ast.Store, ast.Del)):
+                stores[n.id] = stores.get(n.id, 0) + 1
+            elif isinstance(n, (ast.Global, ast.Nonlocal)):
+                special.update(n.names)
+            elif isinstance(n, (ast.FunctionDef, ast.AsyncFunctionDef,
+                                ast.ClassDef)):
+                stores[n.name] = stores.get(n.name, 0) + 1
+                if not isinstance(n, ast.ClassDef):
+                    for x in ast.walk(n.args):
+                        if isinstance(x, ast.arg):
+                            # shadowing in a nested scope: leave alone
+                            special.add(x.arg)
+            elif isinstance(n, ast.ExceptHandler) and n.name:
+                stores[n.name] = stores.get(n.name, 0) + 1
+            elif isinstance(n, (ast.Import, ast.ImportFrom)):
+                for al in n.names:
+                    nm = (al.asname or al.name).split('.')[0]
+                    stores[nm] = stores.get(nm, 0) + 1
+        # only straight-line statements of the function's own body blocks
+        ren = {}
+        for node in ast.walk(fn):
+            for fld in ('body', 'orelse', 'finalbody'):
+                blk = getattr(node, fld, None)
+                if not (isinstance(blk, list) and blk and isinstance(
+                        blk[0], ast.stmt)):
+                    continue
+                for st in list(blk):
+                    if isinstance(st, ast.Assign) and len(
+                            st.targets) == 1 and isinstance(
+                                st.targets[0], ast.Name) and isinstance(
+                                    st.value, ast.Name):
+                        b, a_ = st.targets[0].id, st.value.id
+                        if b != a_ and stores.get(b) == 1 and stores.get(
+                                a_) == 1 and b not in special and \
+                                a_ not in special and a_ not in ren:
+                            ren[b] = ren.get(a_, a_)
+                            blk.remove(st)
+                            if not blk:
+                                blk.append(ast.copy_location(ast.Pass(), st))
+        if ren:
+            for n in ast.walk(fn):
+                if isinstance(n, ast.Name) and n.id in ren and isinstance(
+                        n.ctx, ast.Load):
+                    n.id = ren[n.id]
+
+
+def _leftmost_receiver(e):
+    """The Name at the left end of a call / attribute / subscript chain."""
+    while True:
+        if isinstance(e, ast.Call):
+            e = e.func
+        elif isinstance(e, (ast.Attribute, ast.Subscript)):
+            e = e.value
+        else:
+            break
+    return e if isinstance(e, ast.Name) else None
+
+
+def _rebinding_chains(tree):
+    """``q = A`` directly followed by ``q = q.f(...)`` (q read nowhere else
+    in the second statement) is ``q = A.f(...)``: a builder chain written in
+    steps is the chain.  The receiver is evaluated before the arguments in
+    both spellings."""
+    for node in ast.walk(tree):
+        for fld in ('body', 'orelse', 'finalbody'):
+            blk = getattr(node, fld, None)
+            if not (isinstance(blk, list) and blk and isinstance(
+                    blk[0], ast.stmt)):
+                continue
+            i = 0
+            while i + 1 < len(blk):
+                a, b = blk[i], blk[i + 1]
+                ok = isinstance(a, ast.Assign) and isinstance(
+                    b, ast.Assign) and len(a.targets) == 1 and len(
+                        b.targets) == 1 and isinstance(
+                            a.targets[0], ast.Name) and isinstance(
+                                b.targets[0], ast.Name) and \
+                    a.targets[0].id == b.targets[0].id and isinstance(
+                        b.value, ast.Call) and isinstance(
+                            a.value, (ast.Call, ast.Attribute))
+                if ok:
+                    nm = a.targets[0].id
+                    recv = _leftmost_receiver(b.value)
+                    reads = [x for x in ast.walk(b.value) if isinstance(
+                        x, ast.Name) and x.id == nm]
+                    ok = recv is not None and recv.id == nm and len(
+                        reads) == 1 and reads[0] is recv and not any(
+                            isinstance(x, (ast.Lambda, ast.GeneratorExp,
+                                           ast.ListComp, ast.SetComp,
+                                           ast.DictComp, ast.Await,
+                                           ast.Yield, ast.NamedExpr))
+                            for x in ast.walk(b.value))
+                if ok:
+                    # put A where the receiver name stands
+                    for x in ast.walk(b.value):
+                        for f_, v in ast.iter_fields(x):
+                            if v is recv:
+                                setattr(x, f_, a.value)
+                    del blk[i]
+                    continue
+                i += 1
+
+
 def normalise(tree):
     """Canonical statement shapes, so that rules see one spelling of
     equivalent control flow (positions are kept; nothing is executed):
@@ -513,6 +722,9 @@ def normalise(tree):
     _filtered_iteration(tree)
     _conditional_expressions(tree)
     _star_dict_calls(tree)
+    _tuple_assigns(tree)
+    _single_aliases(tree)
+    _rebinding_chains(tree)
     changed = True
     rounds = 0
     while changed and rounds < 50:
